@@ -72,7 +72,7 @@ fn gen_data(rng: &mut Rng, len: usize) -> Vec<u8> {
 
 pub fn gen_spec(rng: &mut Rng, kind: u64, quick: bool) -> PackSpec {
     let comp = comps(rng);
-    let dedup = rng.chance(1, 4);
+    let dedup = rng.chance(1, 4) && kind != 10; // (every content of the many-contents kind gets its own info)
     let packaging = match rng.below(6) {
         0 => Some(Mode::OneFile),
         1 => Some(Mode::TwoFiles),
@@ -98,6 +98,17 @@ pub fn gen_spec(rng: &mut Rng, kind: u64, quick: bool) -> PackSpec {
                 // cluster included), a few more spread over the first cluster
                 let src = if i >= 4085 || i % 400 == 7 { [Src::File, Src::FileRange, Src::Mem][i % 3] } else { Src::Mem };
                 items.push(CItem { data: rng.low_entropy(len), hint, src });
+            }
+        }
+        10 => {
+            // more contents than any plausible batch of the tables at the end of the pack (16384): the
+            // content-info table and the cluster table must each stay one block
+            label.push_str("many-contents");
+            let n = 16385 + rng.below(700) as usize;
+            let hint = *rng.pick(&[Hint::No, Hint::Yes]);
+            for i in 0..n {
+                let len = if i % 5 == 0 { 0 } else { 1 + rng.below(3) as usize };
+                items.push(CItem { data: rng.low_entropy(len), hint, src: Src::Mem });
             }
         }
         5 => {
@@ -534,6 +545,7 @@ pub fn run(ctx: &mut Ctx) {
             5 => 5,
             6 => 6,
             7 => 70,
+            8 => 10,
             16 => 71,
             25 => 72,
             34 => 73,
